@@ -130,3 +130,41 @@ Proof.
   apply map_ext_in. intros b Hb. rewrite Forall_forall in Hall. destruct (block_ok_wf _ _ _ (Hall b Hb)) as (_ & _ & n & Hne & Hf & _).
   eapply interleave_frame_agree; eauto.
 Qed.
+
+(* ---- the same file with a seek table and a seekable source: valid as soon as every defined point (sample, frame
+   index) names a frame and that frame's first sample ---- *)
+Definition file_of_blocks_seek (blocks : list (list (list Z))) (ch bps : N) (total : option N)
+           (table : list R.seekpoint) (e : Ser.endian) (p : FlacReaders.RNum.profile) : R.file :=
+  {| R.f_slots := map R.SFrame blocks; R.f_channels := ch; R.f_bps := bps; R.f_total := total;
+     R.f_table := Some table; R.f_seekable := true; R.f_endian := e; R.f_profile := p;
+     R.f_usize_bits := 64; R.f_rev := R.Repaired |}.
+
+Lemma sumlen_firstn_blocks si bps blocks k : Forall (EP.block_ok si bps) blocks ->
+  RS.sumlen (FlacReaders.RNum.takeN (N.of_nat k) (map R.SFrame blocks)) = EP.blocks_samples (firstn k blocks).
+Proof.
+  intros Hall. rewrite FlacReaders.Lists_proofs.takeN_firstn, Nat2N.id, firstn_map.
+  apply (sumlen_blocks (firstn k blocks) si bps).
+  apply Forall_forall. intros b Hb. rewrite Forall_forall in Hall. apply Hall.
+  rewrite <- (firstn_skipn k blocks). apply in_or_app. left. exact Hb.
+Qed.
+
+Theorem blocks_valid_file_seek si bps blocks table e p :
+  Forall (EP.block_ok si bps) blocks -> EP.short_only_last si blocks ->
+  FlacCodec.Ast.si_total si = EP.blocks_samples blocks -> 1 <= EP.blocks_samples blocks ->
+  1 <= bps -> bps <= 32 -> EP.blocks_samples blocks < 2 ^ 36 ->
+  (forall o i, In (R.Defined o i) table ->
+     exists pre post, blocks = pre ++ post /\ i = N.of_nat (length pre) /\ o = EP.blocks_samples pre) ->
+  RS.valid_file (file_of_blocks_seek blocks (FlacCodec.Ast.si_channels si) bps (Some (EP.blocks_samples blocks)) table e p).
+Proof.
+  intros Hall Hshape Htot Hpos Hb1 Hb32 Hlt Htab.
+  destruct (blocks_valid_file si bps blocks e p Hall Hshape Htot Hpos Hb1 Hb32 Hlt) as [V1 V2 V3 V4 V5 _ V7 V8 V9].
+  constructor; try assumption.
+  unfold RS.truthful. cbn [file_of_blocks_seek R.f_table R.f_slots]. intros o i Hin.
+  destruct (Htab o i Hin) as (pre & post & Eb & -> & ->). split.
+  - unfold FlacReaders.RNum.lenN. rewrite map_length, Eb, app_length. lia.
+  - rewrite (sumlen_firstn_blocks si bps blocks (length pre) Hall). rewrite Eb, firstn_app, Nat.sub_diag, firstn_all. cbn [firstn]. rewrite app_nil_r. reflexivity.
+Qed.
+
+Theorem blocks_pcm_seek si bps blocks ch total table e p : Forall (EP.block_ok si bps) blocks ->
+  RS.pcm (file_of_blocks_seek blocks ch bps total table e p) = concat (map CS.interleave_frame blocks).
+Proof. intros Hall. exact (blocks_pcm si bps blocks ch total e p Hall). Qed.
